@@ -95,3 +95,17 @@ Definition rd_i32 (sx : oracle) (st : fstate) (e : emu) (i : Z) : Z := le_sint (
 Definition rd_u32 (sx : oracle) (st : fstate) (e : emu) (i : Z) : Z := le_uint (f_payload e) (4 * i) 4.
 Definition rd_i64 (sx : oracle) (st : fstate) (e : emu) (i : Z) : Z := le_sint (f_payload e) (8 * i) 8.
 Definition rd_u64 (sx : oracle) (st : fstate) (e : emu) (i : Z) : Z := le_uint (f_payload e) (8 * i) 8.
+
+(* ---- positions inside the payload (byte offsets): &emu->ev->payload->f[i], p += n, casts between byte pointers *)
+Definition pptr := Z.
+(* memcpy(&local, p, n): the bytes [p, p + n), little endian *)
+Definition rd_ok_bytes (sx : oracle) (st : fstate) (e : emu) (p n : Z) : bool := inb e p n.
+Definition rd_bytes_uint32 (sx : oracle) (st : fstate) (e : emu) (p : Z) : Z := le_uint (f_payload e) p 4.
+(* memchr(p, c, n) reads the bytes [p, p + n) (up to the first match; the whole range is required to be inside) *)
+Definition rd_ok_range (sx : oracle) (st : fstate) (e : emu) (p n : Z) : bool := inb e p n.
+Definition mem_has (sx : oracle) (st : fstate) (e : emu) (p c n : Z) : bool :=
+  existsb (fun k => byte_at (f_payload e) (p + Z.of_nat k) =? cast_uint8 c) (seq 0 (Z.to_nat n)).
+(* an untranslated callee that is given a char * into the payload may read the C string there: a NUL must follow
+   inside the payload *)
+Definition cstr_ok (sx : oracle) (st : fstate) (e : emu) (p : Z) : bool :=
+  (0 <=? p) && existsb (fun k => byte_at (f_payload e) (p + Z.of_nat k) =? 0) (seq 0 (Z.to_nat (psize e - p))).
